@@ -3,5 +3,12 @@ EXTENDS DiffLogicImpl
 A(i, f, t, d) == [id |-> i, from |-> f, to |-> t, d |-> d]
 \* several constraints on the same pair, a cycle through the origin, negative weights
 Atoms5 == {A(1, 0, 1, 2), A(2, 1, 2, 1), A(3, 2, 0, -2), A(4, 0, 1, 0), A(5, 1, 2, -1)}
+Atoms6 == Atoms5 \cup {A(6, 2, 0, -4)}
 Atoms4 == {A(1, 0, 1, 2), A(2, 1, 2, 1), A(3, 2, 0, -2), A(4, 0, 1, 0)}
+\* four time points: a chain 1 -> 2 -> 3 -> 0 closed by its middle or outer edges in any order, a constraint on the reverse
+\* pair (0, 1) that the chain contradicts, one on the pair (1, 0) that it makes redundant
+AtomsChain == {A(1, 1, 2, 1), A(2, 2, 3, 1), A(3, 3, 0, 1), A(4, 0, 1, -5), A(5, 1, 0, 3)}
+\* two constraints on the same ordered pair asserted at nested levels (the tighter one deeper), a path through that pair
+\* which decides a fourth constraint: after the pop the pair must be enforced (and explained) by the looser one again
+AtomsUndo == {A(1, 0, 1, 2), A(2, 0, 1, 0), A(3, 1, 2, 1), A(4, 2, 0, -4)}
 =============================================================================
